@@ -246,3 +246,93 @@ theorem C13_addresses_inside (hosts addrs : List IP) (n : Net) (hin : ∀ x ∈ 
 example : ((drawIPs [([1, 2], [2887672580, 2887672577]), ([7], [2887672900])]).map (·.2)).Nodup := by decide
 
 end NSG
+
+/-! ### The retry loop: private networks stay private -/
+namespace NSG
+
+/-- **C13, "private networks stay private"**: whatever values are drawn, the loop ends with the current networks kept as
+they are, or with the result of the arithmetic for one of the drawn values - and then every new network address is private
+and inside the IPv4 range. -/
+theorem relabelLoop_spec (ds : List Nat) (errs : Nat) (nets : List Net) :
+    relabelLoop ds errs nets = nets ∨
+    ∃ d ∈ ds, relabelLoop ds errs nets = relabelPrivate d nets ∧ allPrivate (relabelPrivate d nets) = true ∧
+      overflows (relabelPrivate d nets) = false := by
+  induction ds generalizing errs with
+  | nil => exact Or.inl rfl
+  | cons d ds ih =>
+    simp only [relabelLoop]
+    by_cases ho : overflows (relabelPrivate d nets) = true
+    · simp only [ho, if_true]
+      by_cases he : 10 < errs + 1
+      · simp only [he, if_true]; exact Or.inl trivial
+      · simp only [he, if_false]
+        rcases ih (errs + 1) with h | ⟨d', hd', h⟩
+        · exact Or.inl h
+        · exact Or.inr ⟨d', List.mem_cons_of_mem _ hd', h⟩
+    · have ho' : overflows (relabelPrivate d nets) = false := by simpa using ho
+      simp only [ho', Bool.false_eq_true, if_false]
+      by_cases hp : allPrivate (relabelPrivate d nets) = true
+      · simp only [hp, if_true]
+        exact Or.inr ⟨d, List.mem_cons_self .., rfl, hp, ho'⟩
+      · simp only [hp, if_false]
+        rcases ih errs with h | ⟨d', hd', h⟩
+        · exact Or.inl h
+        · exact Or.inr ⟨d', List.mem_cons_of_mem _ hd', h⟩
+
+/-- ... so with private networks to start with, the networks after ANY number of re-labellings are private -/
+theorem relabelLoop_private (ds : List Nat) (errs : Nat) (nets : List Net) (h : allPrivate nets = true) :
+    allPrivate (relabelLoop ds errs nets) = true := by
+  rcases relabelLoop_spec ds errs nets with h' | ⟨d, _, h', hp, _⟩
+  · rw [h']; exact h
+  · rw [h']; exact hp
+
+-- the found input: the draw 172.30.98.49 is accepted, the result is private; a draw near the top of 192.168/16 is repeated
+example : relabelLoop [drawn] 0 [nA, nB] = relabelPrivate drawn [nA, nB] := by decide
+example : relabelLoop [3232301000, drawn] 0 [nA, nB] = relabelPrivate drawn [nA, nB] := by decide
+
+end NSG
+
+/-! ### The order in which the generator takes the networks -/
+namespace NSG
+
+theorem sortNets_perm (nets : List Net) : (sortNets nets).Perm nets := List.mergeSort_perm _ _
+
+theorem sortNets_sorted (nets : List Net) : (sortNets nets).Pairwise (fun a b => a.addr ≤ b.addr) := by
+  have h := List.pairwise_mergeSort (le := fun (a b : Net) => decide (a.addr ≤ b.addr))
+    (fun a b c h1 h2 => by simp only [decide_eq_true_eq] at *; omega)
+    (fun a b => by simp only [Bool.or_eq_true, decide_eq_true_eq]; omega) nets
+  exact h.imp (fun h => by simpa using h)
+
+theorem disjoint_symm {a b : Net} (h : a.Disjoint b) : b.Disjoint a := by
+  unfold Net.Disjoint at *; exact h.symm
+
+/-- **C13, generator, for the networks in ANY order**: the private networks of the scenario - aligned to their prefixes,
+pairwise disjoint, of any prefix lengths, listed in any order - are sorted and moved; for every drawn value the new networks
+are aligned, pairwise disjoint, and there are as many of them. -/
+theorem C13_generator_any_order (d : Nat) (nets : List Net) (hal : ∀ n ∈ nets, n.Aligned) (hdis : nets.Pairwise Net.Disjoint) :
+    (∀ n ∈ relabelPrivate d (sortNets nets), n.Aligned) ∧ (relabelPrivate d (sortNets nets)).Pairwise Net.Disjoint ∧
+    (relabelPrivate d (sortNets nets)).length = nets.length := by
+  have hp := sortNets_perm nets
+  have hs := sortNets_sorted nets
+  have hal' : ∀ n ∈ sortNets nets, n.Aligned := fun n hn => hal n (hp.mem_iff.mp hn)
+  have hdis' : (sortNets nets).Pairwise Net.Disjoint := (List.Perm.pairwise_iff (fun h => disjoint_symm h) hp).mpr hdis
+  have hlen : (sortNets nets).length = nets.length := hp.length_eq
+  cases hsn : sortNets nets with
+  | nil =>
+    rw [hsn] at hlen
+    simp [relabelPrivate, ← hlen]
+  | cons first rest =>
+    rw [hsn] at hal' hdis' hs hlen
+    have hlow : ∀ n ∈ first :: rest, first.addr ≤ n.addr := by
+      intro n hn
+      rcases List.mem_cons.mp hn with rfl | hn'
+      · exact Nat.le_refl _
+      · exact (List.pairwise_cons.mp hs).1 n hn'
+    obtain ⟨h1, h2, _, _⟩ := C13_generator d first rest hal' hlow hdis'
+    refine ⟨h1, h2, ?_⟩
+    simp [relabelPrivate, ← hlen]
+
+-- the hypotheses are met by the two networks of the found input listed the other way round
+example : (∀ n ∈ [nB, nA], n.Aligned) ∧ [nB, nA].Pairwise Net.Disjoint := by decide
+
+end NSG
